@@ -428,7 +428,11 @@ where
         }
         new_graph.add_node(Node::from_name_and_attributes(i, nodes));
     });
-    graph.get_all_edges().iter().for_each(|e| {
+    // edges are aggregated in a fixed order, so that the rounding of the summed weights does not
+    // depend on the iteration order of the graph's edge map
+    let mut edges = graph.get_all_edges();
+    edges.sort_by(|a, b| (&a.u, &a.v).cmp(&(&b.u, &b.v)));
+    edges.iter().for_each(|e| {
         let com1 = node2com.get(&e.u).unwrap();
         let com2 = node2com.get(&e.v).unwrap();
         let new_graph_edge_weight = new_graph
@@ -460,7 +464,9 @@ where
     let hm: HashMap<usize, f64> = HashMap::new();
     let empty_hs = HashSet::new();
     let hs = nbrs.get(u).unwrap_or(&empty_hs);
-    hs.iter().fold(hm, |mut acc: HashMap<usize, f64>, v: &T| {
+    // neighbours are visited in a fixed order: the weights towards one community are added up in
+    // floating point, and the rounding of that sum must not depend on the `HashSet`'s iteration order
+    hs.iter().sorted().fold(hm, |mut acc: HashMap<usize, f64>, v: &T| {
         if u == v {
             return acc;
         }
@@ -487,7 +493,7 @@ fn add_predecessor_weights<T, A>(
     A: Clone + Send + Sync,
 {
     if let Some(hs) = preds.get(u) {
-        for v in hs {
+        for v in hs.iter().sorted() {
             if u == v {
                 continue;
             }
